@@ -81,8 +81,10 @@ func scSrv(T, every, silentFrom int, invalid bool) func(x *vs.Exec) {
 
 var cfgProxies = []string{"web", "ssh"}
 
+var loginFailExit bool // set per scenario (name suffix "/exit"): the client runs with frpc's default loginFailExit=true
+
 func newClient(x *vs.Exec, hbI, hbT int64, down bool) *cw.World {
-	return cw.New(x, cw.Opt{HeartbeatInterval: hbI, HeartbeatTimeout: hbT, ServerDownAtStart: down, NoPoolRequests: true,
+	return cw.New(x, cw.Opt{HeartbeatInterval: hbI, HeartbeatTimeout: hbT, ServerDownAtStart: down, NoPoolRequests: true, LoginFailExit: loginFailExit && !down,
 		Proxies: []v1.ProxyConfigurer{cw.TCPProxy("web", 8080, 9000), cw.TCPProxy("ssh", 22, 9001)}})
 }
 
@@ -91,8 +93,7 @@ func healthy(w *cw.World) bool {
 }
 
 func awaitHealthy(w *cw.World, within time.Duration, what string) bool {
-	t0 := w.X.Now()
-	vs.Block("await-healthy", func() bool { return healthy(w) || w.X.Now() > t0+within })
+	vs.BlockFor("await-healthy", within, func() bool { return healthy(w) }) // (bounded on the virtual clock even if nothing else keeps it moving)
 	if !healthy(w) {
 		vs.Fail("%s: %v after the server became reachable again the client has not restored its session and proxies (live sessions=%d registered=%v)\n%s",
 			what, within, w.Srv.LiveCount(), w.Srv.Registered(), tail(w.Srv.Log(), 25))
@@ -268,8 +269,7 @@ func scMany(n int, fault string) func(x *vs.Exec) {
 		w := cw.New(x, cw.Opt{HeartbeatInterval: 1, HeartbeatTimeout: 3, NoPoolRequests: true, Proxies: ps})
 		all := func() bool { return w.Srv.LiveCount() == 1 && len(w.Srv.Registered()) == n }
 		await := func(within time.Duration, what string) bool {
-			t0 := w.X.Now()
-			vs.Block("await-all", func() bool { return all() || w.X.Now() > t0+within })
+			vs.BlockFor("await-all", within, all)
 			if !all() {
 				vs.Fail("client with %d proxies, %s: %v later it has not restored its session and proxies (live sessions=%d, registered=%d of %d)", n, what, within, w.Srv.LiveCount(), len(w.Srv.Registered()), n)
 				return false
@@ -405,7 +405,9 @@ func scenarios() {
 				fmt.Sscanf(f[2], "%d", &g)
 				gap = time.Duration(g) * time.Second
 			}
-			s.Body = scFaults(f[1], gap)
+			body := scFaults(f[1], gap)
+			exit := len(f) > 3 && f[3] == "exit"
+			s.Body = func(x *vs.Exec) { loginFailExit = exit; body(x) }
 			s.End = endClient
 		default:
 			return nil
@@ -420,7 +422,7 @@ func main() {
 	if c == nil {
 		return
 	}
-	c.Rule("E1 on the virtual clock: (server) real frps vs scripted peer for heartbeat timeouts {3,10,90}s x ping periods x every second at which the peer falls silent or starts sending invalid heartbeats; (client) real frpc vs model server: silent server, and all fault sequences of length <= L over {unreachable for 0/1/30/300 s, login rejected, cut right after login, cut, heartbeats unanswered, restart} with the server down at start or not; clients with 99 / 100 / 101 / 130 proxies (around the capacity of the session's send queue) that lose the control connection; oracle: drop within (timeout, timeout+2s], never for a live peer, resources released, self-healing within 60 s, a server that accepts logins and drops the session at once for a minute, never 3 failed connection attempts within 190 ms, <= 10 per second and <= 40 per minute; (tunnel) real frps + real frpc + backend: control connection severed on the client's side only, on the server's side only, or cut: the tunnel carries traffic again within 100 s, all schedules with at most B deviations; non-trivial = distinct observation trace")
+	c.Rule("E1 on the virtual clock: (server) real frps vs scripted peer for heartbeat timeouts {3,10,90}s x ping periods x every second at which the peer falls silent or starts sending invalid heartbeats; (client) real frpc vs model server: silent server, and all fault sequences of length <= L over {unreachable for 0/1/30/300 s, login rejected, cut right after login, cut, heartbeats unanswered, restart} with the server down at start or not, and fault sequences of length <= 2 against a client with the default loginFailExit=true (whose first login succeeded); clients with 99 / 100 / 101 / 130 proxies (around the capacity of the session's send queue) that lose the control connection; oracle: drop within (timeout, timeout+2s], never for a live peer, resources released, self-healing within 60 s, a server that accepts logins and drops the session at once for a minute, never 3 failed connection attempts within 190 ms, <= 10 per second and <= 40 per minute; (tunnel) real frps + real frpc + backend: control connection severed on the client's side only, on the server's side only, or cut: the tunnel carries traffic again within 100 s, all schedules with at most B deviations; non-trivial = distinct observation trace")
 	pool := vs.GetPool(c.Workers)
 	var names []string
 	for _, T := range []int{3, 10, 90} {
@@ -457,6 +459,13 @@ func main() {
 	}
 	rec(nil, L)
 	rec([]string{"downstart"}, L-1)
+	// the same faults against a client with frpc's default loginFailExit=true: only a failing FIRST login may end it
+	for _, a := range alpha {
+		names = append(names, "faults/"+a+"/1/exit")
+		for _, b := range []string{"reject", "cutlogin", "down30"} {
+			names = append(names, "faults/"+a+","+b+"/1/exit")
+		}
+	}
 	var many []string
 	for _, n := range []int{99, 100, 101, 130} {
 		for _, f := range []string{"cut", "mute"} {
